@@ -273,6 +273,7 @@ var c18Maps = []regMapSpec{
 	{Name: "dense0-255/ones", Addrs: seqU16(0, 256), Init: 0xffff},
 	{Name: "dense0-15/validators", Addrs: seqU16(0, 16), Init: 0x1234, OddRejected: []uint16{1, 3}},
 	{Name: "top+bottom", Addrs: []uint16{0xffff, 0, 1, 0x0fff, 0xfff}, Init: 0x8001},
+	{Name: "validators/current-content-invalid", Addrs: seqU16(0, 8), Init: 0x1235, OddRejected: []uint16{1, 3}},
 	{Name: "overlapping-ranges", Ranges: [][2]int{{10, 1}, {10, 2}, {20, 2}, {21, 2}, {30, 4}, {28, 4}, {40, 3}, {40, 3}}, Addrs: []uint16{10, 11, 20, 21, 22, 28, 29, 30, 31, 32, 33, 40, 41, 42}, Init: 0x4321},
 }
 
